@@ -103,6 +103,33 @@ def conf_sx(c):
             auth_sx(c.my_auth), auth_sx(c.peer_auth), int(c.dpd), int(c.lifetime)]
 
 
+def short(b):
+    b = bytes(b)
+    return b if len(b) <= 12 else [len(b), b[:8]]
+
+
+def fp_payload(x):
+    """fingerprint of a payload_sx value (see HdlRun.fp_payload)"""
+    t = x[0]
+    if t == 33:
+        return [33, [[q[0], q[1], short(q[2]), q[3]] for q in x[1]]]
+    if t in (34, 35, 36, 39):
+        return [t, x[1], short(x[2])]
+    if t in (40, 43):
+        return [t, short(x[1])]
+    if t == 41:
+        return [41, x[1], x[2], short(x[3]), short(x[4])]
+    if t == 42:
+        return [42, x[1], [short(s) for s in x[2]]]
+    return x
+
+
+def fp_msg(m):
+    if m is None or (m and m[0] == 'unknown-bytes'):
+        return m
+    return [m[0], [fp_payload(p) for p in m[1]], [fp_payload(p) for p in m[2]]]
+
+
 PRF_IDS = {h: int(k) for k, h in crypto.Prf._digestmod_dict.items()}
 
 
@@ -173,12 +200,12 @@ class HdlRecorder:
 
     def core_sx(self, sa):
         return [int(sa.state), bytes(sa.my_spi), bytes(sa.peer_spi),
-                [bytes(k) for k in sa.ike_sa_keyring] if sa.ike_sa_keyring is not None else None,
+                [short(k) for k in sa.ike_sa_keyring] if sa.ike_sa_keyring is not None else None,
                 [tr_sx(t) for t in sa.chosen_proposal.transforms] if sa.chosen_proposal is not None else None,
                 [child_sx(c) for c in sa.child_sas], child_id(sa.creating_child_sa), child_id(sa.rekeying_child_sa),
                 child_id(sa.deleting_child_sa), int(sa.dh.group) if sa.dh is not None else None,
-                self.request_sx(sa.request), self.msg_of_bytes(sa.ike_sa_init_req_data),
-                self.msg_of_bytes(sa.ike_sa_init_res_data), sa.peer_crypto is not None]
+                self.request_sx(sa.request), fp_msg(self.msg_of_bytes(sa.ike_sa_init_req_data)),
+                fp_msg(self.msg_of_bytes(sa.ike_sa_init_res_data)), sa.peer_crypto is not None]
 
     @staticmethod
     def request_sx(r):
@@ -190,15 +217,15 @@ class HdlRecorder:
             x = payload_sx(p)
             if x[0] == 33:      # the SPIs of the (shared, mutable) proposals of a stored request are not compared
                 x = [33, [[q[0], q[1], b'', q[3]] for q in x[1]]]
-            out.append(x)
+            out.append(fp_payload(x))
         return [int(r.exchange_type), out]
 
     def state_sx(self, sa):
         return [self.core_sx(sa), self.core_sx(sa.new_ike_sa) if sa.new_ike_sa is not None else None,
                 [int(sa.my_msg_id), int(sa.peer_msg_id), int(sa.retransmit_at), int(sa.retransmissions),
                  int(sa.start_dpd_at), int(sa.rekey_ike_sa_at), int(sa.delete_ike_sa_at), len(sa.pending_events)],
-                self.msg_of_bytes(getattr(sa, 'last_sent_response_data', None)),
-                self.msg_of_bytes(sa.request_data), 0]
+                fp_msg(self.msg_of_bytes(getattr(sa, 'last_sent_response_data', None))),
+                fp_msg(self.msg_of_bytes(sa.request_data)), 0]
 
     def sa_id(self, sa):
         lg = self.log()
